@@ -18,7 +18,7 @@ import TsRsVerif.Model.TreeDerive
 import TsRsVerif.Lemmas.History
 import TsRsVerif.Lemmas.UnfoldCheck
 import TsRsVerif.Model.De
-import TsRsVerif.Lemmas.DeComplete2
+import TsRsVerif.Model.DeFrag
 open Lean TsRs
 
 def gs (j : Json) (k : String) : Str :=
